@@ -564,7 +564,8 @@ func c05GenSpec(rng *kit.Rand, round c05Round, ns string) c05Spec {
 	}
 	n := 2 + rng.Intn(2)
 	for i := 0; i < n; i++ {
-		st := &c05Step{Wait: pick(1*s, 2*s, 2*s, 3*s, 3*s), Inc: pick(0, 0, 5*s, 15*s, time.Hour)}
+		// waits are whole seconds + 400ms so that a renewal is never sent at the very instant a whole-second TTL runs out
+		st := &c05Step{Wait: pick(1*s, 2*s, 2*s, 3*s, 3*s) + 400*time.Millisecond, Inc: pick(0, 0, 5*s, 15*s, time.Hour)}
 		if (sp.Kind == "secret" || sp.Kind == "login" || sp.Kind == "secret-batch") && rng.Chance(1, 5) {
 			st.Tune = true
 			st.NewMax = pick(0, 4*s, 10*s, 25*s, 2*time.Hour)
